@@ -420,6 +420,12 @@ func main() {
 			bodies[name] = fd.Body
 		}
 		for _, want := range targets[f] {
+			// "Recv.Func+full=alias": a second, differently flagged shape of a function that another
+			// property already pins; the definition is named <file>_<Recv>_<Func>_<alias>
+			alias := ""
+			if i := strings.Index(want, "="); i >= 0 {
+				want, alias = want[:i], want[i+1:]
+			}
 			withLit := strings.HasSuffix(want, "+lit")
 			want = strings.TrimSuffix(want, "+lit")
 			withFull := strings.HasSuffix(want, "+full")
@@ -438,6 +444,9 @@ func main() {
 				rich = false
 			}
 			id := strings.NewReplacer(".", "_", "/", "_").Replace(strings.TrimSuffix(f, ".go") + "_" + want)
+			if alias != "" {
+				id += "_" + alias
+			}
 			b.WriteString("def " + id + " : List String := [")
 			for i, s := range seq {
 				if i > 0 {
